@@ -39,6 +39,10 @@ func addHeaders(r *http.Request, cfg config.Proxy, stripPath string) error {
 		return errors.New("cannot parse " + r.RemoteAddr)
 	}
 
+	// a client must not be able to make the reverse proxy drop the
+	// headers set below by declaring them as hop-by-hop headers
+	dropManagedConnectionOptions(r.Header, cfg)
+
 	// set configurable ClientIPHeader
 	// X-Real-Ip is set later and X-Forwarded-For is set
 	// by the Go HTTP reverse proxy.
@@ -132,6 +136,78 @@ func addHeaders(r *http.Request, cfg config.Proxy, stripPath string) error {
 	}
 
 	return nil
+}
+
+// managedHeaders are the end-to-end headers fabio generates itself.
+var managedHeaders = []string{
+	"Forwarded",
+	"X-Forwarded-For",
+	"X-Forwarded-Host",
+	"X-Forwarded-Port",
+	"X-Forwarded-Prefix",
+	"X-Forwarded-Proto",
+	"X-Real-Ip",
+}
+
+// dropManagedConnectionOptions removes the names of the headers fabio
+// manages from the Connection header of the request. Headers named there
+// are hop-by-hop headers (RFC 7230 section 6.1) which the reverse proxy
+// deletes before it forwards the request. Without this a client could
+// suppress the client ip, TLS and forwarding headers by sending e.g.
+// 'Connection: X-Forwarded-Proto'. The client supplied copy of such a
+// header was not meant to be forwarded and is deleted.
+func dropManagedConnectionOptions(h http.Header, cfg config.Proxy) {
+	conn, ok := h["Connection"]
+	if !ok {
+		return
+	}
+	managed := func(name string) (yes, keep bool) {
+		name = http.CanonicalHeaderKey(name)
+		if cfg.RequestID != "" && name == http.CanonicalHeaderKey(cfg.RequestID) {
+			// has been set by the proxy already
+			return true, true
+		}
+		if cfg.ClientIPHeader != "" && name == http.CanonicalHeaderKey(cfg.ClientIPHeader) {
+			return true, false
+		}
+		if cfg.TLSHeader != "" && name == http.CanonicalHeaderKey(cfg.TLSHeader) {
+			return true, false
+		}
+		for _, m := range managedHeaders {
+			if name == m {
+				return true, false
+			}
+		}
+		return false, false
+	}
+
+	var opts []string
+	changed := false
+	for _, v := range conn {
+		for _, f := range strings.Split(v, ",") {
+			f = strings.TrimSpace(f)
+			if f == "" {
+				continue
+			}
+			yes, keep := managed(f)
+			if !yes {
+				opts = append(opts, f)
+				continue
+			}
+			changed = true
+			if !keep {
+				h.Del(f)
+			}
+		}
+	}
+	switch {
+	case !changed:
+		return
+	case len(opts) == 0:
+		h.Del("Connection")
+	default:
+		h.Set("Connection", strings.Join(opts, ", "))
+	}
 }
 
 var tlsver = map[uint16]string{
